@@ -8,6 +8,7 @@
 -/
 import PonyVerif.Lemmas.TranslateMain
 import PonyVerif.Props.C01
+import PonyVerif.Lemmas.TupleCmp
 namespace PonyVerif.Props.C02
 open PonyVerif.Model.Q PonyVerif.Props.C01
 
@@ -89,6 +90,39 @@ theorem C02_join_dialects (d1 d2 : Dialect) (sch : Schema) (L : LikeFn) (e : Exp
     (rows : List JRow) (hwt : ∀ r ∈ rows, ∀ p, r.parent = some p → WT sch (mergeEnv r.child p)) :
     sqlJoin L d1 c1 rows = sqlJoin L d2 c2 rows := by
   rw [C01_join sch d1 L e c1 h1 hL1 rows hwt, C01_join sch d2 L e c2 h2 hL2 rows hwt]
+
+/-! ### ordering comparison of tuples: the expansion for dialects without row values -/
+
+/-- the row-value comparison `(a1, …, an) OP (b1, …, bn)` of PostgreSQL / MySQL (documented semantics: lexicographic) -/
+def rowValueCmp (op : CmpOp) (vs : List (Int × Int)) : Bool := pyTupleCmp op vs
+
+/-- **C02_tuple_expansion** — for EVERY number of components n >= 1, every ordering operator and all operands that evaluate to
+    integers: the OR/AND expansion `CmpMonad.getsql` emits for SQLite / Oracle evaluates to the lexicographic comparison, i.e. to
+    Python's tuple comparison and to the row-value comparison PostgreSQL / MySQL receive. -/
+theorem C02_tuple_expansion (L : LikeFn) (d : Dialect) (env : SEnv) (op : CmpOp) (hop : op.isOrdering = true)
+    (ps : List (Sql × Sql)) (vs : List (Int × Int)) (hne : ps ≠ []) (hev : OperandsEval L d env ps vs) :
+    evalCond L d env (expandTuple op ps) = some (K.ofBool (pyTupleCmp op vs)) ∧ pyTupleCmp op vs = rowValueCmp op vs := by
+  have hvs : vs ≠ [] := by
+    intro h; subst h
+    cases ps with
+    | nil => exact hne rfl
+    | cons p ps => cases p; simp [OperandsEval] at hev
+  have := expandFrom_eval L d env op ps vs .nil true (evalAnd_nil L d env) (fun _ => rfl) hev hne
+  simp only [expandTuple, evalCond_or, this, Bool.true_and, lexCmp_eq_py op hop vs hvs, rowValueCmp, and_self]
+
+/-- **C02_tuple_checker_sound** — what the engine runs on the real SQLite AST: if it is structurally the expansion of the comparison,
+    it computes the lexicographic order on every row. -/
+theorem C02_tuple_checker_sound (L : LikeFn) (d : Dialect) (env : SEnv) (op : CmpOp) (hop : op.isOrdering = true)
+    (ps : List (Sql × Sql)) (vs : List (Int × Int)) (hne : ps ≠ []) (hev : OperandsEval L d env ps vs)
+    (real : Sql) (hc : Sql.beq (expandTuple op ps) real = true) :
+    evalCond L d env real = some (K.ofBool (rowValueCmp op vs)) := by
+  rw [← Sql.beq_eq _ _ hc]
+  exact (C02_tuple_expansion L d env op hop ps vs hne hev).1
+
+/-- three components, the first decides: `(1, 5, 0) <= (2, 0, 0)` -/
+example : pyTupleCmp .le [(1, 2), (5, 0), (0, 0)] = true := by decide
+/-- the clause that a lost `a1 = b1` guard would wrongly satisfy: `(3, 1, 0) <= (2, 1, 5)` is false -/
+example : pyTupleCmp .le [(3, 2), (1, 1), (0, 5)] = false := by decide
 
 /-! ### the typing guards of the fragment are not removable on PostgreSQL -/
 
